@@ -1,13 +1,13 @@
 (* CGLS.v — model of pylops/optimization/cls_basic.py : class CGLS
-   (setup / step / run / finalize / solve), statement by statement,
-   INCLUDING its quirks:
-   * setup stores self.damp = damp**2 but, when x0 is given, forms
-       r = Op^H s - damp * x      and   cost1[0] = sqrt(cost[0]^2 + damp * |x.x|)
-     with the UNSQUARED damp.  [fixed = false] is the code as it stands;
-     [fixed = true] is the proposed one-token repair (self.damp in both places);
-   * finalize returns r1norm = self.kold and r2norm = cost1[iiter].
-   Conventions as in CG.v; the cost lists hold the SQUARES of the entries.
-   [cl_r] is the local variable r of setup/step (kept for the theorems). *)
+   (setup / step / run / finalize / solve), statement by statement
+   (tree at a61e68b: setup stores self.damp = damp**2 and uses it in the
+   residual r = Op^H s - self.damp * x and in cost1[0]; finalize returns
+   r1norm = cost[iiter], r2norm = cost1[iiter]).
+   Conventions as in CG.v; the cost lists hold the SQUARES of the entries, so
+   the model returns r1norm^2 and r2norm^2.
+   [cl_r] is the local variable r of setup/step (kept for the theorems).
+   The behaviour of the code before 4c3cad3 / a61e68b is documented in
+   Solvers/CGLSFacts.v, Section Legacy. *)
 From PV Require Export CG.
 Local Open Scope R_scope.
 
@@ -67,7 +67,6 @@ Variable absf : F -> F.
 Variable gtb : F -> F -> bool.
 Variable n : nat.                  (* Op.shape[1] *)
 Variable A : list (list F).        (* Op.matvec = mv A, Op.rmatvec = mvH n A *)
-Variable fixed : bool.             (* false: the code as it stands *)
 
 Record clst := mkcl { cl_x : vec; cl_s : vec; cl_c : vec; cl_q : vec; cl_r : vec; cl_kold : F;
   cl_damp : F; cl_cost2 : list F; cl_cost1_2 : list F; cl_iiter : nat }.
@@ -75,17 +74,16 @@ Record clst := mkcl { cl_x : vec; cl_s : vec; cl_c : vec; cl_q : vec; cl_r : vec
 (* CGLS.setup(y, x0, niter, damp, tol) *)
 Definition cgls_setup (y : vec) (x0 : option vec) (damp : F) : clst :=
   let damp2 := damp * damp in                       (* self.damp = damp ** 2 *)
-  let ds := if fixed then damp2 else damp in        (* the name `damp` used below in the code *)
   let x := match x0 with None => zeros F n | Some v => v end in
   let s := match x0 with None => y | Some v => vsub F y (mv F A v) end in
   let r := match x0 with
            | None => mvH F n A s                                   (* r = Op.rmatvec(s) *)
-           | Some v => vsub F (mvH F n A s) (vscale F ds v)        (* r = Op.rmatvec(s) - damp * x *)
+           | Some v => vsub F (mvH F n A s) (vscale F damp2 v)     (* r = Op.rmatvec(s) - self.damp * x *)
            end in
   let q := mv F A r in                              (* c = r.copy(); q = Op.matvec(c) *)
   let kold := absf (dot F r r) in
   let cost0 := dot F s s in                         (* norm(s) ^ 2 *)
-  let cost1 := cost0 + ds * absf (dot F x x) in     (* cost[0]**2 + damp * abs(x.dot(x.conj())) *)
+  let cost1 := cost0 + damp2 * absf (dot F x x) in  (* cost[0]**2 + self.damp * abs(x.dot(x.conj())) *)
   mkcl x s r q r kold damp2 [cost0] [cost1] 0.
 
 (* CGLS.step *)
@@ -107,16 +105,16 @@ Definition cgls_step (st : clst) : clst :=
 Definition cgls_run := loop_run F clst cgls_step cl_x cl_kold cl_iiter gtb false.
 Definition cgls_iter := loop_iter clst cgls_step.
 
-(* CGLS.finalize: istop = 1 if kold < tol else 2; r1norm = kold; r2norm = cost1[iiter].
-   The model returns r1norm itself and the SQUARE of r2norm. *)
+(* CGLS.finalize: istop = 1 if kold < tol else 2; r1norm = cost[iiter]; r2norm = cost1[iiter].
+   The model returns the SQUARES of r1norm and r2norm. *)
 Definition cgls_istop (st : clst) (tol : F) : nat := if gtb tol (cl_kold st) then 1%nat else 2%nat.
-Definition cgls_r1norm (st : clst) : F := cl_kold st.
+Definition cgls_r1norm2 (st : clst) : F := nth (cl_iiter st) (cl_cost2 st) 0.
 Definition cgls_r2norm2 (st : clst) : F := nth (cl_iiter st) (cl_cost1_2 st) 0.
 
-(* CGLS.solve: returns x, istop, iiter, r1norm, r2norm(^2), cost(^2) and the observed events *)
+(* CGLS.solve: returns x, istop, iiter, r1norm^2, r2norm^2, cost(^2) and the observed events *)
 Definition cgls_solve (y : vec) (x0 : option vec) (niter : nat) (damp tol : F) :=
   let '(st, log) := cgls_run niter niter tol (cgls_setup y x0 damp) [] in
-  (cl_x st, cgls_istop st tol, cl_iiter st, cgls_r1norm st, cgls_r2norm2 st, cl_cost2 st, log).
+  (cl_x st, cgls_istop st tol, cl_iiter st, cgls_r1norm2 st, cgls_r2norm2 st, cl_cost2 st, log).
 
 Lemma cl_iiter_step st : cl_iiter (cgls_step st) = S (cl_iiter st).
 Proof. reflexivity. Qed.
@@ -140,7 +138,7 @@ Theorem cgls_solve_diagnostics y x0 niter damp tol :
   let '(x, istop, iiter, r1, r2sq, cost2, log) := cgls_solve y x0 niter damp tol in
   length cost2 = S iiter /\ (iiter <= niter)%nat /\
   x = cl_x (cgls_iter iiter st0) /\ cost2 = cl_cost2 (cgls_iter iiter st0) /\
-  r1 = cl_kold (cgls_iter iiter st0) /\ r2sq = nth iiter (cl_cost1_2 (cgls_iter iiter st0)) 0 /\
+  r1 = nth iiter (cl_cost2 (cgls_iter iiter st0)) 0 /\ r2sq = nth iiter (cl_cost1_2 (cgls_iter iiter st0)) 0 /\
   callbacks_of log = map (fun i => cl_x (cgls_iter i st0)) (seq 1 iiter) /\
   begins_of log = map (fun i => cl_x (cgls_iter i st0)) (seq 0 iiter) /\
   length (ends_of log) = iiter.
@@ -150,7 +148,7 @@ Proof.
     as (j & Hj & H1 & Hi & Hc & Hb & He).
   fold cgls_run in H1, Hc, Hb, He. fold cgls_iter in H1, Hi, Hc, Hb.
   destruct (cgls_run niter niter tol st0 []) as [st log]. simpl in H1, Hc, Hb, He. subst st.
-  unfold cgls_r1norm, cgls_r2norm2. rewrite Hi.
+  unfold cgls_r1norm2, cgls_r2norm2. rewrite Hi.
   split; [rewrite <- Hi at 2; apply cl_cost_length_iter; reflexivity|]. repeat split; auto.
 Qed.
 
@@ -171,9 +169,6 @@ Definition cl_inv (st : clst) : Prop :=
 Definition cl_rinv (st : clst) : Prop :=
   cl_r st = vsub F (mvH F n A (cl_s st)) (vscale F d2 (cl_x st)).
 
-(* exactly what the setup needs *)
-Definition cgls_guard (x0 : option vec) : Prop :=
-  match x0 with None => True | Some v => vscale F (if fixed then d2 else damp) v = vscale F d2 v end.
 Definition x0_ok (x0 : option vec) : Prop := forall v, x0 = Some v -> length v = n.
 
 Lemma cgls_setup_inv x0 : x0_ok x0 -> cl_inv (cgls_setup y x0 damp).
@@ -185,10 +180,10 @@ Proof.
   - rewrite zeros_length, mv_zeros, mvH_length by auto. repeat split; auto.
     rewrite <- Hy. symmetry; apply vsub_zeros_r.
 Qed.
-Lemma cgls_setup_rinv x0 : x0_ok x0 -> cgls_guard x0 -> cl_rinv (cgls_setup y x0 damp).
+Lemma cgls_setup_rinv x0 : x0_ok x0 -> cl_rinv (cgls_setup y x0 damp).
 Proof.
-  intros Hx G. unfold cl_rinv, cgls_setup. destruct x0 as [v|]; cbn [cl_x cl_s cl_r].
-  - simpl in G. rewrite G. reflexivity.
+  intros Hx. unfold cl_rinv, cgls_setup. destruct x0 as [v|]; cbn [cl_x cl_s cl_r].
+  - reflexivity.
   - rewrite vscale_zeros. rewrite <- (mvH_length F n A WA y) at 3. symmetry; apply vsub_zeros_r.
 Qed.
 Lemma cgls_step_inv st : cl_inv st -> cl_inv (cgls_step st) /\ cl_rinv (cgls_step st).
@@ -210,17 +205,17 @@ Proof.
 Qed.
 Theorem cgls_inv_iter x0 k : x0_ok x0 -> cl_inv (cgls_iter k (cgls_setup y x0 damp)).
 Proof. intros H; induction k as [|k IH]; simpl; [apply cgls_setup_inv; auto | apply cgls_step_inv; auto]. Qed.
-Theorem cgls_rinv_iter x0 k : x0_ok x0 -> cgls_guard x0 \/ (1 <= k)%nat -> cl_rinv (cgls_iter k (cgls_setup y x0 damp)).
-Proof. intros H G. destruct k as [|k].
-  - destruct G as [G|G]; [apply cgls_setup_rinv; auto | lia].
+Theorem cgls_rinv_iter x0 k : x0_ok x0 -> cl_rinv (cgls_iter k (cgls_setup y x0 damp)).
+Proof. intros H. destruct k as [|k].
+  - apply cgls_setup_rinv; auto.
   - simpl. apply cgls_step_inv, cgls_inv_iter; auto. Qed.
 
 (* C09: s_k = y - A x_k, q_k = A c_k, r_k = A^H s_k - damp^2 x_k *)
-Theorem cgls_invariants x0 k : x0_ok x0 -> cgls_guard x0 ->
+Theorem cgls_invariants x0 k : x0_ok x0 ->
   let st := cgls_iter k (cgls_setup y x0 damp) in
   cl_s st = vsub F y (mv F A (cl_x st)) /\ cl_q st = mv F A (cl_c st) /\
   cl_r st = vsub F (mvH F n A (cl_s st)) (vscale F d2 (cl_x st)).
-Proof. intros H G st. destruct (cgls_inv_iter x0 k H) as (_ & _ & _ & _ & _ & Hs & Hq).
+Proof. intros H st. destruct (cgls_inv_iter x0 k H) as (_ & _ & _ & _ & _ & Hs & Hq).
   repeat split; auto. apply cgls_rinv_iter; auto. Qed.
 
 (* ================= C10: cost histories ================= *)
@@ -259,34 +254,40 @@ Proof.
     change (cgls_iter (S k) st0) with (cgls_step (cgls_iter k st0)).
     apply cgls_step_cost1, cgls_inv_iter; auto.
 Qed.
-Definition cost1_guard (x0 : option vec) : Prop :=
-  match x0 with None => True | Some v => (if fixed then d2 else damp) * dot F v v = d2 * dot F v v end.
-Theorem cgls_cost1_setup_truthful x0 : x0_ok x0 -> cost1_guard x0 ->
+Theorem cgls_cost1_setup_truthful x0 : x0_ok x0 ->
   let st0 := cgls_setup y x0 damp in cl_cost1_2 st0 = [lsfun (cl_x st0)].
 Proof.
-  intros H G st0. destruct (cgls_setup_inv x0 H) as (_ & _ & _ & _ & _ & Hs & _). fold st0 in Hs.
+  intros H st0. destruct (cgls_setup_inv x0 H) as (_ & _ & _ & _ & _ & Hs & _). fold st0 in Hs.
   unfold lsfun, lsres2. rewrite <- Hs. subst st0. unfold cgls_setup; cbn [cl_cost1_2 cl_s cl_x]. rewrite Habs.
-  destruct x0 as [v|]; simpl in G.
-  - rewrite G; reflexivity.
-  - f_equal. rewrite dot_zeros_l. ring.
+  reflexivity.
 Qed.
 
-(* r2norm^2 = ||y - A x||^2 + damp^2 ||x||^2 for the returned x, provided at
-   least one iteration was performed or the setup guard holds *)
-Theorem cgls_r2norm_truthful x0 k : x0_ok x0 -> cost1_guard x0 \/ (1 <= k)%nat ->
+(* r2norm^2 = ||y - A x||^2 + damp^2 ||x||^2 for the returned x: all inputs, all k *)
+Theorem cgls_r2norm_truthful x0 k : x0_ok x0 ->
   let st := cgls_iter k (cgls_setup y x0 damp) in cgls_r2norm2 st = lsfun (cl_x st).
 Proof.
-  intros H G st. unfold cgls_r2norm2. subst st.
+  intros H st. unfold cgls_r2norm2. subst st.
   replace (cl_iiter (cgls_iter k (cgls_setup y x0 damp))) with k
     by (rewrite cl_iiter_iter; simpl; lia).
   rewrite cgls_cost1_truthful_tail by auto.
   assert (L : length (cl_cost1_2 (cgls_setup y x0 damp)) = 1%nat) by reflexivity.
   destruct k as [|k].
-  - destruct G as [G|G]; [|lia]. rewrite cgls_cost1_setup_truthful by auto. reflexivity.
+  - rewrite cgls_cost1_setup_truthful by auto. reflexivity.
   - rewrite app_nth2 by (rewrite L; lia). rewrite L.
     replace (S k - 1)%nat with k by lia.
     rewrite (nth_indep _ 0 (lsfun (cl_x (cgls_iter 0 (cgls_setup y x0 damp))))) by (rewrite map_length, seq_length; lia).
     rewrite (map_nth (fun j => lsfun (cl_x (cgls_iter j (cgls_setup y x0 damp))))), seq_nth by lia. reflexivity.
+Qed.
+
+(* r1norm^2 = ||y - A x||^2 for the returned x: all inputs, all k *)
+Theorem cgls_r1norm_truthful x0 k : x0_ok x0 ->
+  let st := cgls_iter k (cgls_setup y x0 damp) in cgls_r1norm2 st = lsres2 (cl_x st).
+Proof.
+  intros H st. unfold cgls_r1norm2. subst st.
+  replace (cl_iiter (cgls_iter k (cgls_setup y x0 damp))) with k by (rewrite cl_iiter_iter; simpl; lia).
+  rewrite cgls_cost_truthful by auto.
+  rewrite (nth_indep _ 0 (lsres2 (cl_x (cgls_iter 0 (cgls_setup y x0 damp))))) by (rewrite map_length, seq_length; lia).
+  rewrite (map_nth (fun j => lsres2 (cl_x (cgls_iter j (cgls_setup y x0 damp))))), seq_nth by lia. reflexivity.
 Qed.
 End Inv.
 
@@ -301,7 +302,6 @@ Notation vec := (list F).
 Variable absf : F -> F.
 Variable n : nat.
 Variable A : list (list F).
-Variable fixed : bool.
 Hypothesis WA : wfM F n A.
 Variable y : vec.
 Hypothesis Hy : length y = length A.
@@ -335,11 +335,11 @@ Proof.
   apply dot_conj_sym.
 Qed.
 
-Lemma sim_setup x0 : x0_ok F n x0 -> cgls_guard F fixed damp x0 ->
-  sim (cgls_setup F absf n A fixed y x0 damp) (cg_setup F absf normal_op n normal_rhs x0).
+Lemma sim_setup x0 : x0_ok F n x0 ->
+  sim (cgls_setup F absf n A y x0 damp) (cg_setup F absf normal_op n normal_rhs x0).
 Proof.
-  intros Hx G. unfold sim, cgls_setup, cg_setup. destruct x0 as [v|]; simpl in *.
-  - specialize (Hx v eq_refl). rewrite G.
+  intros Hx. unfold sim, cgls_setup, cg_setup. destruct x0 as [v|]; simpl in *.
+  - specialize (Hx v eq_refl).
     assert (E : vsub F (mvH F n A (vsub F y (mv F A v))) (vscale F d2 v) = vsub F normal_rhs (normal_op v)).
     { unfold normal_rhs, normal_op. rewrite mvH_vsub by (auto; apply mv_length).
       apply vsub_vsub; rewrite !mvH_length, ?vscale_length; auto. }
@@ -370,15 +370,15 @@ Qed.
 
 (* C09: for all k, CGLS on (A, y, damp, x0) and CG on (A^H A + damp^2 I, A^H y, x0)
    have the same x_k, c_k, r_k, kold_k *)
-Theorem cgls_simulates_cg x0 k : x0_ok F n x0 -> cgls_guard F fixed damp x0 ->
-  sim (cgls_iter F absf n A k (cgls_setup F absf n A fixed y x0 damp))
+Theorem cgls_simulates_cg x0 k : x0_ok F n x0 ->
+  sim (cgls_iter F absf n A k (cgls_setup F absf n A y x0 damp))
       (cg_iter F absf normal_op k (cg_setup F absf normal_op n normal_rhs x0)).
 Proof.
-  intros Hx G. induction k as [|k IH]; [apply sim_setup; auto|].
+  intros Hx. induction k as [|k IH]; [apply sim_setup; auto|].
   unfold cgls_iter, cg_iter; cbn [loop_iter]; fold (cgls_iter F absf n A) (cg_iter F absf normal_op).
   apply sim_step; auto.
   - apply cgls_inv_iter; auto.
-  - destruct k; [apply cgls_setup_rinv; auto | apply cgls_rinv_iter; auto; right; lia].
+  - apply cgls_rinv_iter; auto.
 Qed.
 
 Lemma normal_op_linop : linop F n n normal_op.
